@@ -10,7 +10,7 @@ from engine.vloop import Deadlock
 from harness.common import World, mem_places, place_names, run_async
 
 
-def h10(S, max_m=2, extra_max=2, queues=1, max_limit=3, dmax_us=2000, zero=False, backend="mem", latency_us=0, dmin_us=0, idle_queue=False, min_m=1, extra_min=1):
+def h10(S, max_m=2, extra_max=2, queues=1, max_limit=3, dmax_us=2000, zero=False, backend="mem", latency_us=0, dmin_us=0, idle_queue=False, min_m=1, extra_min=1, stagger=0):
     from repid import Job, Router, Worker
     from repid.converter import BasicConverter
 
@@ -27,6 +27,8 @@ def h10(S, max_m=2, extra_max=2, queues=1, max_limit=3, dmax_us=2000, zero=False
     S.tag("backlog", B)
     # the first execution may end with an error *after* the actor ran (a result was asked for and nobody stores results)
     report_error = S.flag("first_job_fails_after_its_actor_ran") if backend == "mem" and queues == 1 and not zero else False
+    # the second queue's messages may arrive a few loop steps after the worker has started (the first queue's are there from the start)
+    late_by = S.pick("second_queue_messages_arrive_after_loop_steps", stagger) if stagger and queues > 1 else 0
     started = []
     out = {}
     qnames = ["q%d" % i for i in range(queues)]
@@ -49,11 +51,33 @@ def h10(S, max_m=2, extra_max=2, queues=1, max_limit=3, dmax_us=2000, zero=False
                 if not zero:
                     await asyncio.sleep(d[i])
         before = {}
+        later = []
         for i in range(B):
             qn = qnames[i % queues]
-            key, _, params = await Job("job_" + qn, queue=qn, args={"i": i}, id_=f"m{i}", retries=1,
-                                       store_result=bool(report_error and i == 0), _connection=w.conn).enqueue()
+            j = Job("job_" + qn, queue=qn, args={"i": i}, id_=f"m{i}", retries=1,
+                    store_result=bool(report_error and i == 0), _connection=w.conn)
+            if late_by and i % queues == 1:
+                later.append(j)
+                before[f"m{i}"] = j._construct_parameters() if hasattr(j, "_construct_parameters") else None
+                continue
+            key, _, params = await j.enqueue()
             before[f"m{i}"] = params
+        if later:
+            base = loop.iters
+            prev_hook = loop.iter_hook
+
+            async def publish_later():
+                for j in later:
+                    _, _, p = await j.enqueue()
+                    before[f"m{j.args['i']}"] = p
+
+            def hook(lp):
+                if prev_hook is not None:
+                    prev_hook(lp)
+                if lp.iters == base + late_by:
+                    asyncio.ensure_future(publish_later())
+
+            loop.iter_hook = hook
         worker = Worker(routers=[r], handle_signals=[], _connection=w.conn, graceful_shutdown_time=1.0,
                         messages_limit=M, tasks_limit=limit)
         try:
@@ -233,6 +257,14 @@ HARNESSES = [
                 "tasks_limit": "[1, 2]", "durations": "(400 ms, 408 ms] / (400 ms, 412 ms]: long enough for each consumer to prefetch two messages ahead, so that a loop "
                                                       "takes a buffered message while the other queue's loop starts the M-th execution"},
         functions=["connections/redis/consumer.py:_RedisConsumer.consume", "_runner.py:_Runner.run_one_queue"], covers=["run-returned"], stubs=["fake Redis server"]),
+    Harness(
+        name="H10-rabbit-staggered-arrival", scenario=h10, workers=16, budget_s=900,
+        params={"quick": {"max_m": 1, "extra_max": 1, "queues": 2, "zero": True, "max_limit": 2, "backend": "rabbit", "stagger": 16},
+                "thorough": {"max_m": 2, "extra_max": 2, "queues": 2, "zero": True, "max_limit": 2, "backend": "rabbit", "stagger": 30}},
+        bounds={"broker": "RabbitMQ on the fake channel", "queues": "2", "M": "1 quick / [1, 2] thorough", "tasks_limit": "[1, 2]",
+                "arrival": "the second queue's messages are published 0..15 (quick) / 0..29 (thorough) loop steps after the worker started, so that one "
+                           "reaches its consumer just as the first queue's loop starts the M-th execution"},
+        functions=["connections/rabbitmq/consumer.py:_RabbitConsumer.consume", "_runner.py:_Runner.run_one_queue"], covers=["run-returned"], stubs=["fake AMQP server"]),
     Harness(
         name="H10-plugin", scenario=h10_plugin, workers=4,
         bounds={"older messages in the queue": "[0, 1]", "actor duration": "[0, 2 ms]"},
